@@ -11,7 +11,9 @@ RULE = ('random directory trees (depth <=4; directory names tests, ftests, '
         '*.txt / *.bak look-alikes); every .py file reports its own import. '
         'Option vectors: tests/test-file patterns {default, ^f?tests$, '
         '^(test|check)_}, duplicated / nested --path and --test-path '
-        'entries in both orders, --ignore_dir, -m pattern lists, --package. '
+        'entries in both orders, --ignore_dir, -m pattern lists, --package, '
+        'a directory knit into a package with --package-path DIR PACKAGE '
+        '(its modules are named, filtered and loaded as PACKAGE.<name>). '
         'Each tree is run normally and again with a proxy that scrambles '
         'every os.walk listing the finder sees and a different file '
         'creation order. Oracle: imported candidate files == model, each '
@@ -26,7 +28,9 @@ ASSUMPTIONS = ['model trees.expected_discovery written from the statement',
                'sorted order is accepted as well)']
 FLOORS = {'runs': 500, 'selected_files': 1000, 'decoys_checked': 3000,
           'order_checked': 300, 'scrambled_runs': 200, 'multi_root_cases': 60,
-          'module_filter_cases': 60, 'package_cases': 30}
+          'module_filter_cases': 60, 'package_cases': 30,
+          'package_path_cases': 30, 'package_path_selected': 30,
+          'package_path_module_filter_cases': 10}
 BATCH_TIMEOUT = 300
 
 
@@ -66,8 +70,31 @@ def run_case(case):
             if f.startswith(t + '/') and not any(
                     f.startswith(l + '/') or f == l for l in files.links):
                 files[twin[1] + f[len(t):]] = k
+    # a directory that is knit into a package from elsewhere
+    # (--package-path DIR PACKAGE): a copy of one top-level tree under a
+    # name the walk from the root does not enter; its modules are called
+    # PACKAGE.<relative name> - that is the name -m filters and the name
+    # they are loaded under
+    knit = None
+    if tops0 and not twin and rng.random() < 0.14:
+        t = rng.choice(tops0)
+        kdir, kpkg = 'x-knit', prefix + '_kp.ext'
+        for f, k in list(files.items()):
+            if f.startswith(t + '/') and not any(
+                    f.startswith(l + '/') or f == l for l in files.links):
+                files[kdir + f[len(t):]] = k
+        if any(f.startswith(kdir + '/') for f in files):
+            knit = (kdir, kpkg)
     root = vworld.scratch_dir('c14-')
     trees.write_tree(root, files, order=rng)
+    if knit:
+        kd = os.path.join(root, *knit[1].split('.'))
+        os.makedirs(kd)
+        open(os.path.join(os.path.dirname(kd), '__init__.py'), 'w').close()
+        with open(os.path.join(kd, '__init__.py'), 'w') as f:
+            f.write('import os\n__path__.append(os.path.join(os.path.dirname('
+                    'os.path.dirname(os.path.dirname(__file__))), %r))\n'
+                    % knit[0])
     with open(os.path.join(root, 'world.json'), 'w') as f:
         f.write('{}')
     tops = sorted({f.split('/')[0] for f in files if '/' in f})
@@ -87,6 +114,8 @@ def run_case(case):
     tp_outer = None
     r = rng.random()
     ident_tops = [t for t in tops if trees.IDENT.match(t)]
+    if knit:
+        r = 1.0
     if r < 0.15:
         pargs.append((rng.choice(['--path', '--test-path']), ''))
         multi = True
@@ -118,7 +147,11 @@ def run_case(case):
         argv += ['--ignore_dir', ign[0]]
     start_dirs = None
     package = None
-    if twin and len(set(roots)) == 1 and not tp_outer:
+    if knit:
+        argv += ['--package-path', os.path.join(root, knit[0]), knit[1]]
+    if knit:
+        pass
+    elif twin and len(set(roots)) == 1 and not tp_outer:
         # -s shop -s shopping (either order): both are searched
         pk = list(twin)
         if rng.random() < 0.5:
@@ -136,7 +169,14 @@ def run_case(case):
             package = top + '.' + rng.choice(subs)
         start_dirs = [package.replace('.', '/')]
         argv += ['-s', package]
-    want = trees.expected_discovery(files, roots, tp, fpat, ign, start_dirs)
+    def knit_part():
+        # searched after the --test-path / --path directories
+        if not knit:
+            return []
+        return [(f, knit[1] + '.' + m) for f, m in trees.expected_discovery(
+            files, [knit[0]], tp, fpat, ign)]
+    want = trees.expected_discovery(files, roots, tp, fpat, ign,
+                                    start_dirs) + knit_part()
     mods = [m for _, m in want]
     def toplevel(rel):
         d, n = trees.listing(files, rel)
@@ -159,7 +199,7 @@ def run_case(case):
         multi = False
         tp_outer = None
         want = trees.expected_discovery(files, roots, tp, fpat, ign,
-                                        start_dirs)
+                                        start_dirs) + knit_part()
         mods = [m for _, m in want]
     mpats = None
     optional = set()
@@ -171,7 +211,7 @@ def run_case(case):
                         if not f.startswith(tp_outer + '/')}
         want = [(f, m) for f, m in want if f not in unimportable]
         mods = [m for _, m in want]
-    if mods and rng.random() < 0.3:
+    if mods and rng.random() < (0.6 if knit else 0.3):
         mpats = gen.random_patterns(rng, mods, maxn=2)
         for p in mpats:
             argv += ['-m', p]
@@ -184,7 +224,8 @@ def run_case(case):
         # may be loaded, one accepted under its primary name must be.
         for f, m in full:
             names = []
-            for r in set(roots):
+            for r in set(roots) if not (
+                    knit and f.startswith(knit[0] + '/')) else ():
                 pre = r + '/' if r else ''
                 if f.startswith(pre):
                     names.append(f[len(pre):-3].replace('/', '.'))
@@ -304,6 +345,12 @@ def run_case(case):
         vworld.destroy(root)
     if twin and start_dirs and len(start_dirs) == 2:
         C('prefix_sibling_package_cases')
+    if knit:
+        C('package_path_cases')
+        C('package_path_selected', sum(
+            1 for f in want_files if f.startswith(knit[0] + '/')))
+        if mpats:
+            C('package_path_module_filter_cases')
     if multi:
         C('multi_root_cases')
     if mpats:
